@@ -105,6 +105,25 @@ def check_case(out: Outcome, case, tag):
             out.fail('property', 'amplitudes-sum-to-final-distance', case, expected=float(dists[:, -1].sum()), observed=float(amps.sum()))
         if not rel(m.vibration_amplitude(), np.std(want_amps), 1e-9):
             out.fail('property', 'vibration-amplitude', case, expected=float(np.std(want_amps)), observed=float(m.vibration_amplitude()))
+        # --- attempt frequency: power-weighted mean frequency of the one-sided periodogram of every atom's speed series, taken on the
+        #     trajectory's OWN frames (no padding): mean and standard deviation over the atoms
+        def ref_meanfreq(x, fs):
+            n_ = len(x)
+            X = np.fft.rfft(x - x.mean())
+            P = np.abs(X) ** 2 / (fs * n_)
+            if n_ % 2 == 0:
+                P[1:-1] *= 2
+            else:
+                P[1:] *= 2
+            f_ = np.arange(len(X)) * fs / n_
+            return float((P * f_).sum() / P.sum()) if P.sum() > 0 else float('nan')
+        fs_ = 1.0 / dt
+        mf = np.array([ref_meanfreq(speed[a], fs_) for a in range(A)])
+        f_got, s_got = m.attempt_frequency()
+        if np.all(np.isfinite(mf)):
+            if not (rel(f_got, np.mean(mf), 1e-9) and (rel(s_got, np.std(mf), 1e-6) or abs(float(s_got) - float(np.std(mf))) < 1e-9 * abs(np.mean(mf)))):
+                out.fail('property', 'attempt-frequency', case, expected=[float(np.mean(mf)), float(np.std(mf))], observed=[float(f_got), float(s_got)],
+                         note=f'{T} frames')
         # --- scaling laws (implementation vs implementation)
         k, s = case['k'], case['s']
         mk = TrajectoryMetrics(build(case, lat=lat * k))
@@ -151,6 +170,37 @@ def check_case(out: Outcome, case, tag):
         out.sample({'tag': tag, **case})
 
 
+def check_displacement_input(out: Outcome, rng):
+    """a trajectory handed over as per-frame displacements from given base positions (a continued run: the first displacement is
+    not zero): distances, speeds and amplitudes refer to the BASE positions"""
+    name, lat = gem.lattice_pool(rng)
+    T, A = int(rng.integers(4, 30)), int(rng.integers(1, 4))
+    disp = rng.integers(-6, 7, size=(T, A, 3)) / 64
+    base = rng.integers(0, 64, size=(A, 3)) / 64
+    case = {'displacement_input': True, 'lattice_name': name, 'lattice': lat.tolist(), 'displacements': disp.tolist(), 'base': base.tolist()}
+    out.evaluations += 1
+    with warnings.catch_warnings():
+        warnings.simplefilter('ignore')
+        tr = gem.make_traj(disp, lat, ['Li'] * A, time_step=1e-15, metadata={'temperature': 300.0}, coords_are_displacement=True, base_positions=base)
+        m = TrajectoryMetrics(tr)
+        cum = np.cumsum(disp, axis=0)
+        dist = np.linalg.norm(cum @ lat, axis=-1).T  # [atom, frame]
+        got_d = np.array(tr.distances_from_base_position())
+        if got_d.shape != dist.shape or not np.allclose(got_d, dist, rtol=1e-9, atol=1e-12):
+            out.fail('property', 'distance-from-base', case, expected=dist.tolist(), observed=got_d.tolist())
+            return
+        speed = np.array(m.speed())
+        if not np.allclose(speed, np.diff(dist, prepend=0), rtol=1e-9, atol=1e-12):
+            out.fail('property', 'speed-is-distance-difference', case, expected=np.diff(dist, prepend=0).tolist(), observed=speed.tolist())
+        amps = np.array(m.amplitudes())
+        if abs(amps.sum() - dist[:, -1].sum()) > 1e-9 * max(1.0, dist[:, -1].sum()):
+            out.fail('property', 'amplitudes-sum-to-final-distance', case, expected=float(dist[:, -1].sum()), observed=float(amps.sum()))
+        D = float(np.mean(dist[:, -1] ** 2)) * angstrom ** 2 / (2 * 3 * T * 1e-15)
+        if not rel(m.tracer_diffusivity(dimensions=3), D):
+            out.fail('property', 'tracer-diffusivity', case, expected=D, observed=float(m.tracer_diffusivity(dimensions=3)))
+    out.nontrivial.add(json.dumps(case, sort_keys=True))
+
+
 def corpus():
     d = core.CORPUS / PID
     return [json.loads(p.read_text()) for p in sorted(d.glob('*.json'))] if d.exists() else []
@@ -163,11 +213,15 @@ def run(tier: str, seed: int, scale: int) -> Outcome:
         check_case(out, case, 'corpus')
     for _ in range((150 if tier == 'quick' else 1500) * scale):
         check_case(out, gen_case(rng), 'random')
+    for _ in range((40 if tier == 'quick' else 400) * scale):
+        check_displacement_input(out, rng)
     return out
 
 
 def replay(case):
     out = Outcome()
+    if case.get('displacement_input'):
+        return True, 'displacement-input case: re-run ./check C14 quick with the recorded seed'
     check_case(out, case, 'replay')
     fails = [f for f in out.failures if f.kind == 'property']
     text = '\n'.join(f'{f.clause}: expected {str(f.expected)[:200]} observed {str(f.observed)[:200]} {f.note}' for f in fails) or 'no failure'
